@@ -1041,11 +1041,11 @@ func (x *Explorer) assert(label string, c value) {
 		sh.mu.Unlock()
 		if r == "sat" {
 			x.recordViolation(label, false, m, ev, cross)
-			// continue under the assumption that the assertion holds, if that is possible
-			if x.query(c.e, false) == "unsat" {
-				panic(pathEnd{kind: endStop, msg: "assertion violated on the whole path"})
+			// continue under the assumption that the assertion holds where that is possible (so that independent
+			// violations further on are found too); when it fails on the whole path, continue unconstrained
+			if x.query(c.e, false) != "unsat" {
+				x.perm("(assert " + c.e + ")")
 			}
-			x.perm("(assert " + c.e + ")")
 		}
 	default:
 		panic(unsupported(fmt.Sprintf("Assert(%T)", c)))
